@@ -14,7 +14,12 @@ MARK = b"8=FIX."
 CHUNK_LAWS = ["whole", "cut1", "cut1", "cut2", "byte", "small", "mixed", "marker", "over4096", "all"]
 CORRUPT_KINDS = ["subst", "delete", "insert", "insert_nul", "dup"]
 MALFORMED = ["bodylen_alpha", "bodylen_neg", "bodylen_huge", "cks_alpha", "tag_alpha", "no_equals",
-             "empty_field", "wrong_order", "truncated", "wrong_begin", "blob"]
+             "empty_field", "wrong_order", "truncated", "wrong_begin", "blob",
+             "odd_dup_tag", "odd_tag_after_group", "odd_group_structure", "odd_random_tags"]
+# tags of the FIX 4.4 repeating-group table (count tags and members, nested ones included) + plain ones
+ODD_POOL = ["453", "448", "447", "452", "802", "523", "803", "454", "455", "456", "555", "600", "539", "524", "525",
+            "538", "804", "545", "805", "136", "137", "138", "139", "78", "79", "80", "11", "55", "54", "38", "44",
+            "58", "1", "15", "60", "0", "99999"]
 
 
 def make_config(seed, tier="quick", corrupt=False, index=0):
@@ -81,6 +86,7 @@ class StreamSim(PeerSim):
         self.follow = []
         self.faults_applied = []
         self.r_content = random.Random(cfg["seed"] ^ 0xABCDEF)
+        self.session_dropped = False
         if self.eut_role == "acceptor":
             self.logon_pending = True
 
@@ -88,6 +94,10 @@ class StreamSim(PeerSim):
         if kind == "connected" and self.eut_role == "acceptor" and getattr(self, "logon_pending", False):
             self.logon_pending = False
             self.peer.send("A", [("98", "0"), ("108", self.cfg["hb"])], spec={"logon": 1})
+
+    def ep_event(self, ep, kind, *args):
+        if kind == "on_disconnect":
+            self.session_dropped = True
 
     # ------------------------------------------------------------- content
     def make_frame_spec(self, i, tag="S"):
@@ -290,6 +300,31 @@ class StreamSim(PeerSim):
     def send_malformed(self, kind, salt):
         r = random.Random(salt)
         p = self.peer
+        if kind.startswith("odd_"):
+            # well-framed (BodyLength and CheckSum correct) but structurally odd: a regular member of the
+            # sequence whose only demand on the decoder is that it neither raises nor blocks
+            if kind == "odd_dup_tag":
+                body = [("11", "ODD"), ("55", "A"), ("54", "1"), ("55", "B")]
+            elif kind == "odd_tag_after_group":
+                body = [("11", "ODD"), ("55", "A"), ("454", "1"), ("455", "x"), ("456", "y"), ("55", "B")]
+            elif kind == "odd_group_structure":
+                body = r.choice([
+                    [("11", "ODD"), ("453", "2"), ("55", "A")],
+                    [("11", "ODD"), ("448", "p"), ("453", "1"), ("448", "q")],
+                    [("11", "ODD"), ("555", "1"), ("600", "X"), ("539", "1"), ("524", "n"), ("804", "1"), ("545", "s"), ("600", "Y"), ("11", "Z")],
+                    [("11", "ODD"), ("453", "1"), ("448", "p"), ("802", "1"), ("523", "s"), ("448", "q"), ("453", "1"), ("448", "r")],
+                    [("453", "x"), ("453", "1"), ("453", "1")],
+                ])
+            else:
+                body = [(r.choice(ODD_POOL), r.choice(["1", "2", "x", "", "Y"])) for _ in range(r.randint(1, 12))]
+                body = [(t, v or "e") for t, v in body]
+            self.n_corrupt += 1
+            self.n_malformed += 1
+            self.fault("malformed_" + kind)
+            self.faults_applied.append((kind, None, None))
+            self.last_fault_ev = self.rec("malformed", kind)
+            p.send("D", body, spec={"odd": kind})
+            return
         seq = p.next_out  # not consumed: a malformed frame is not part of the sequence
         base = dict(sender=p.comp_id, target=p.eut_comp_id, seq=seq)
         body = [("11", "BAD"), ("55", "ES")]
@@ -429,6 +464,14 @@ class StreamSim(PeerSim):
             if missing and self.eut.connection_state > ConnectionState.DISCONNECTED_BROKEN_CONN:
                 raise Violation("blocked", f"C10/follow-up-frames-blocked/faults={kinds}",
                                 f"after {kinds}, follow-up frames {missing} were never decoded although the link is up")
+            if self.eut.connection_state > ConnectionState.DISCONNECTED_BROKEN_CONN and not self.session_dropped:
+                # the follow-up frames are intact and lie entirely behind the damage: a decoder that
+                # resynchronises on the frame-start marker hands every one of them over
+                lost = [sp["seq"] for sp in self.follow if sp["frame"] not in handed]
+                if lost:
+                    raise Violation("neighbour-lost", f"C10/intact-frame-after-damage-not-decoded/faults={kinds}",
+                                    f"after {kinds}, intact follow-up frames {lost} (of {len(self.follow)}) were never "
+                                    "returned by the decoder although the link stayed up")
             if self.final_sent and self.final["frame"] not in handed \
                     and self.eut.connection_state > ConnectionState.DISCONNECTED_BROKEN_CONN:
                 raise Violation("blocked", f"C10/final-frame-blocked/faults={kinds}",
